@@ -769,3 +769,49 @@ func intersectPredicate(c *km.Ctx, s *km.Sem, g *ssa.Function) (int, int, bool) 
 	}
 	return ri, rj, true
 }
+
+// globalTableEntries: the entries of a package-level map that is assigned exactly once, in its package initialiser,
+// filled only there, and neither written nor emptied anywhere else in the module.
+func globalTableEntries(c *km.Ctx, g *ssa.Global) ([]*ssa.MapUpdate, bool) {
+	if g == nil || g.Pkg == nil {
+		return nil, false
+	}
+	st := singleStoreTo(c, g)
+	initFn := g.Pkg.Func("init")
+	if st == nil || initFn == nil || st.Parent() != initFn {
+		return nil, false
+	}
+	m := km.Unwrap(st.Val)
+	var out []*ssa.MapUpdate
+	good := true
+	for _, fn := range c.P.AllFuncs {
+		km.Instrs(fn, func(in ssa.Instruction) {
+			switch x := in.(type) {
+			case *ssa.MapUpdate:
+				mm := km.Unwrap(x.Map)
+				fromG := false
+				if l, isU := mm.(*ssa.UnOp); isU && l.X == ssa.Value(g) {
+					fromG = true
+				}
+				if mm != m && !fromG {
+					return
+				}
+				if fn != initFn {
+					good = false
+					return
+				}
+				out = append(out, x)
+			case ssa.CallInstruction:
+				n := km.CalleeFull(x.Common())
+				if n == "builtin:delete" || n == "builtin:clear" || strings.HasPrefix(n, "maps.") {
+					for _, a := range x.Common().Args {
+						if l, isU := km.Unwrap(a).(*ssa.UnOp); isU && l.X == ssa.Value(g) {
+							good = false
+						}
+					}
+				}
+			}
+		})
+	}
+	return out, good && len(out) > 0
+}
